@@ -32,6 +32,7 @@ OPS = {
     "clone": ("SmallVec::clone", "clone has equal payloads in order with fresh identities (one Clone::clone per element); original untouched; inline iff len <= N; both drop-once"),
     "hash": ("SmallVec::hash", "feeds the hasher exactly what the slice of the contents feeds"),
     "into_iter": ("SmallVec::into_iter (by value), SmallVecIntoIter::{next, drop}", "yields the contents in order; abandoning after a symbolic number of next() calls drops every remaining element exactly once and no yielded one"),
+    "into_iter_nth": ("SmallVecIntoIter::nth (Iterator default method or an override; used by skip / step_by)", "nth(k) drops the k skipped elements, yields element k (None past the end); whatever is left is dropped with the iterator: drop-once in every case"),
     "into_iter_u32": ("SmallVec::into_iter (by value, needs_drop == false)", "yields the contents in order, then None"),
     "drop": ("SmallVec::drop", "every element dropped exactly once; heap block released (Kani memory checks)"),
     "sort": ("SmallVec::deref_mut + slice::sort", "result is sorted and a permutation of the old contents"),
